@@ -17,6 +17,7 @@ STEPS7 = ["C", "D", "E", "F", "G", "A", "B"]
 MODES = [("major", '"major"'), ("minor", '"minor"'), (None, "None"), ("none", '"none"'),
          (1, "1"), (-1, "-1"), ("dorian", '"dorian"'), (0, "0"), ("Major", '"Major"')]
 QUALS = ["dd", "d", "m", "M", "P", "A", "AA"]
+ALT_SPELL = [("", 0), ("#", 1), ("##", 2), ("x", 2), ("###", 3), ("b", -1), ("bb", -2), ("bbb", -3)]
 
 
 def _try(f, *a, **k):
@@ -48,6 +49,10 @@ def tabulate():
                       for st, al, oc in itertools.product(STEPS7, range(-3, 4), range(-1, 10))]
     names = sorted({r[1] for _, r in T["note_name"] if r[0] == "ok"})
     T["name_parse"] = [(n, _try(M.note_name_to_pitch_spelling, n), _try(M.note_name_to_midi_pitch, n)) for n in names]
+    # every accidental spelling the grammar [A-G][xb#]*digits admits with a defined meaning, multi-digit octaves too
+    T["name_alt"] = [((st, ai, oc), _try(M.note_name_to_pitch_spelling, st + ALT_SPELL[ai][0] + str(oc)),
+                      _try(M.note_name_to_midi_pitch, st + ALT_SPELL[ai][0] + str(oc)))
+                     for st, ai, oc in itertools.product(STEPS7, range(len(ALT_SPELL)), [0, 1, 4, 9, 10, 12])]
     # O2 ---------------------------------------------------------------
     T["key_name"] = [((f, mi), _try(M.fifths_mode_to_key_name, f, MODES[mi][0]))
                      for f in range(-12, 13) for mi in range(len(MODES))]
@@ -81,6 +86,12 @@ def tabulate():
     def rt(m, a4):
         return int(M.frequency_to_midi_pitch(M.midi_pitch_to_frequency(m, a4), a4))
     T["freq"] = [((m, a4), _try(rt, m, a4)) for m in range(0, 128) for a4 in (440.0, 415.0, 442.0)]
+    # value of the frequency itself (equal temperament: a4/32 * 2^((m-9)/12)) and nearest-semitone rounding
+    T["freq_val"] = [((m, a4), _try(lambda m=m, a4=a4: float(M.midi_pitch_to_frequency(m, a4)))) for m in range(0, 128) for a4 in (440.0, 415.0)]
+    def off(m, k):
+        f = M.midi_pitch_to_frequency(m) * 2.0 ** (k / 120.0)
+        return int(M.frequency_to_midi_pitch(f))
+    T["freq_off"] = [((m, k), _try(off, m, k)) for m in range(0, 128) for k in (-4, 4)]
     T["freq_a4"] = _try(M.midi_pitch_to_frequency, 69)
     T["freq_arr"] = _try(lambda: [int(x) for x in M.frequency_to_midi_pitch(M.midi_pitch_to_frequency(np.arange(128)))])
     return T
@@ -121,6 +132,8 @@ def gen(T=None):
          [ctuple([_ps3(k), _res(r, cstr)]) for k, r in T["note_name"]])
     deff("tab_name_parse", "string * option (string * option Z * option Z) * option Z",
          [ctuple([cstr(n), _res(r, _ps), _res(m, cz)]) for n, r, m in T["name_parse"]])
+    deff("tab_name_alt", "(string * Z * Z) * (option (string * option Z * option Z) * option Z)",
+         [ctuple([ctuple([cstr(st), cz(ALT_SPELL[ai][1]), cz(oc)]), ctuple([_res(r, _ps), _res(m, cz)])]) for (st, ai, oc), r, m in T["name_alt"]])
     deff("tab_key_name", "(Z * Z) * option string",
          [ctuple([ctuple([cz(f), cz(mi)]), _res(r, cstr)]) for (f, mi), r in T["key_name"]])
     deff("tab_key_parse", "string * option (Z * string)",
@@ -141,6 +154,8 @@ def gen(T=None):
     deff("tab_dot_mult", "Q", [cq(Fraction(v)) for v in T["dot_mult"]])
     deff("tab_freq", "(Z * Z) * option Z",
          [ctuple([ctuple([cz(m), cz(int(a4))]), _res(r, cz)]) for (m, a4), r in T["freq"]])
+    deff("tab_freq_off", "(Z * Z) * option Z",
+         [ctuple([ctuple([cz(m), cz(k)]), _res(r, cz)]) for (m, k), r in T["freq_off"]])
     L.append("Definition mode_spellings : list (Z * string) := [%s]." %
              "; ".join(ctuple([cz(i), cstr(str(MODES[i][1]).strip('"'))]) for i in range(len(MODES))))
     core.write_gen("C12_Tab", "\n".join(L) + "\n")
@@ -200,6 +215,13 @@ def oracle(T):
                 bad.append(("note_name_to_pitch_spelling", r[1], pr, ("ok", (st, al, oc))))
             if pm != ("ok", 12 * (oc + 1) + BASE[st] + al):
                 bad.append(("note_name_to_midi_pitch", r[1], pm, 12 * (oc + 1) + BASE[st] + al))
+    for (st, ai, oc), r, m in T["name_alt"]:
+        al = ALT_SPELL[ai][1]
+        nm = st + ALT_SPELL[ai][0] + str(oc)
+        if r != ("ok", (st, al, oc)):
+            bad.append(("note_name_to_pitch_spelling", nm, r, ("ok", (st, al, oc))))
+        if m != ("ok", 12 * (oc + 1) + BASE[st] + al):
+            bad.append(("note_name_to_midi_pitch", nm, m, 12 * (oc + 1) + BASE[st] + al))
     for (f, mi), r in T["key_name"]:
         mode = MODES[mi][0]
         if mode in ("minor", -1):
@@ -271,6 +293,13 @@ def oracle(T):
     for (m, a4), r in T["freq"]:
         if r != ("ok", m):
             bad.append(("frequency_to_midi_pitch(midi_pitch_to_frequency)", (m, a4), r, m))
+    for (m, a4), r in T["freq_val"]:
+        e = a4 / 32.0 * 2.0 ** ((m - 9) / 12.0)
+        if r[0] != "ok" or abs(r[1] - e) > 1e-9 * e:
+            bad.append(("midi_pitch_to_frequency", (m, a4), r, e))
+    for (m, k), r in T["freq_off"]:
+        if r != ("ok", m):
+            bad.append(("frequency_to_midi_pitch(freq(m) detuned by %d/10 semitone)" % k, m, r, m))
     if T["freq_a4"] != ("ok", 440.0):
         bad.append(("midi_pitch_to_frequency", 69, T["freq_a4"], 440.0))
     if T["freq_arr"] != ("ok", list(range(128))):
